@@ -52,7 +52,8 @@ func (g *Gen) typedWrite(c int, k string) Op {
 	case 4: // keyspace operations
 		return pickOp([]string{"DEL", k}, []string{"UNLINK", k}, []string{"DEL", "nokey"}, []string{"RENAME", k, other}, []string{"RENAME", other, k}, []string{"RENAME", k, k},
 			[]string{"RENAMENX", other, k}, []string{"COPY", other, k}, []string{"COPY", other, k, "REPLACE"}, []string{"COPY", k, other, "REPLACE"},
-			[]string{"BITOP", "NOT", k, other}, []string{"BITOP", "AND", k, k, other}, []string{"TOUCH", k}, []string{"TYPE", k})
+			[]string{"BITOP", "NOT", k, other}, []string{"BITOP", "AND", k, k, other}, []string{"TOUCH", k}, []string{"TYPE", k},
+			[]string{"SORT", other, "ALPHA", "STORE", k}, []string{"SORT", k, "ALPHA", "STORE", k}, []string{"SORT", "nokey", "STORE", k}, []string{"SORT", k, "ALPHA", "LIMIT", "0", "0", "STORE", other})
 	default: // expiry operations
 		return pickOp([]string{"EXPIRE", k, "100"}, []string{"PEXPIRE", k, "100000", g.pick("NX", "XX", "GT", "LT")}, []string{"PERSIST", k}, []string{"EXPIRE", k, "-1"},
 			[]string{"EXPIREAT", k, "4102444800"}, []string{"PEXPIRE", k, "0"}, []string{"TTL", k}, []string{"EXPIRE", "nokey", "10"})
@@ -104,10 +105,12 @@ func c10Table() []watchCase {
 		[]string{"LTRIM", "k", "0", "-1"}, []string{"LTRIM", "k", "1", "2"}, []string{"LTRIM", "k", "5", "9"}, []string{"LMOVE", "k", "k", "LEFT", "LEFT"}, []string{"LMOVE", "k", "k", "LEFT", "RIGHT"},
 		[]string{"RPOPLPUSH", "k", "k"}, []string{"LMPOP", "1", "k", "LEFT"}, []string{"LMPOP", "2", "nokey", "k", "RIGHT", "COUNT", "2"}, []string{"BLPOP", "k", "0.01"}, []string{"BRPOP", "nokey", "k", "0.01"},
 		[]string{"BLMOVE", "k", "k", "RIGHT", "LEFT", "0.01"}, []string{"BLMPOP", "0.01", "1", "k", "LEFT"},
-		[]string{"LRANGE", "k", "0", "-1"}, []string{"LPOS", "k", "b"}, []string{"RENAME", "k", "k"}, []string{"COPY", "k", "k", "REPLACE"})
+		[]string{"LRANGE", "k", "0", "-1"}, []string{"LPOS", "k", "b"}, []string{"RENAME", "k", "k"}, []string{"COPY", "k", "k", "REPLACE"},
+		[]string{"SORT", "k", "ALPHA", "STORE", "k"}, []string{"SORT", "k", "ALPHA"}, []string{"SORT", "k", "ALPHA", "LIMIT", "0", "0", "STORE", "k"}, []string{"SORT", "k", "STORE", "k"},
+		[]string{"SORT", "nokey", "STORE", "k"}, []string{"SORT", "k", "BY", "nosort", "STORE", "k"}, []string{"SORT", "k", "BY", "nosort", "STORE", "o"})
 	add(lst2, []string{"LMOVE", "k", "o", "LEFT", "RIGHT"}, []string{"LMOVE", "o", "k", "LEFT", "RIGHT"}, []string{"RPOPLPUSH", "o", "k"}, []string{"BLMOVE", "o", "k", "LEFT", "LEFT", "0.01"},
 		[]string{"BRPOPLPUSH", "k", "o", "0.01"}, []string{"RENAME", "o", "k"}, []string{"RENAME", "k", "o"}, []string{"RENAMENX", "o", "k"}, []string{"COPY", "o", "k"}, []string{"COPY", "o", "k", "REPLACE"},
-		[]string{"COPY", "k", "o", "REPLACE"}, []string{"LMPOP", "2", "o", "k", "LEFT"})
+		[]string{"COPY", "k", "o", "REPLACE"}, []string{"LMPOP", "2", "o", "k", "LEFT"}, []string{"SORT", "o", "ALPHA", "STORE", "k"}, []string{"SORT", "k", "ALPHA", "STORE", "o"})
 	add(hsh, []string{"HSET", "k", "f1", "1"}, []string{"HSET", "k", "f1", "2"}, []string{"HSET", "k", "f3", "3"}, []string{"HSET", "k", "f1", "1", "f2", "x"}, []string{"HSET", "k", "f1", "5", "f3", "6"},
 		[]string{"HMSET", "k", "f1", "1"}, []string{"HMSET", "k", "f1", "7", "f2", "8"}, []string{"HSETNX", "k", "f1", "9"}, []string{"HSETNX", "k", "f9", "9"}, []string{"HDEL", "k", "f1"},
 		[]string{"HDEL", "k", "nofield"}, []string{"HDEL", "k", "f1", "f2"}, []string{"HINCRBY", "k", "f1", "0"}, []string{"HINCRBY", "k", "f1", "3"}, []string{"HINCRBY", "k", "f2", "1"},
@@ -115,15 +118,17 @@ func c10Table() []watchCase {
 	add(set, []string{"SADD", "k", "m1"}, []string{"SADD", "k", "m9"}, []string{"SADD", "k", "m1", "m9"}, []string{"SREM", "k", "m1"}, []string{"SREM", "k", "nomember"}, []string{"SREM", "k", "m1", "m2"},
 		[]string{"SMOVE", "k", "o", "m1"}, []string{"SMOVE", "k", "o", "m2"}, []string{"SMOVE", "k", "o", "nomember"}, []string{"SMOVE", "o", "k", "m3"}, []string{"SMOVE", "o", "k", "m2"}, []string{"SMOVE", "k", "k", "m1"},
 		[]string{"SINTERSTORE", "k", "k", "o"}, []string{"SINTERSTORE", "k", "k", "k"}, []string{"SUNIONSTORE", "k", "k"}, []string{"SUNIONSTORE", "k", "k", "o"}, []string{"SDIFFSTORE", "k", "k", "nokey"},
-		[]string{"SDIFFSTORE", "k", "k", "k"}, []string{"SDIFFSTORE", "o", "k", "o"}, []string{"SINTERSTORE", "k", "nokey", "o"}, []string{"SINTERCARD", "2", "k", "o"}, []string{"SMEMBERS", "k"})
+		[]string{"SDIFFSTORE", "k", "k", "k"}, []string{"SDIFFSTORE", "o", "k", "o"}, []string{"SINTERSTORE", "k", "nokey", "o"}, []string{"SINTERCARD", "2", "k", "o"}, []string{"SMEMBERS", "k"},
+		[]string{"SORT", "k", "ALPHA", "STORE", "k"}, []string{"SORT", "k", "ALPHA", "STORE", "o"}, []string{"SORT", "k", "BY", "nosort", "STORE", "k"})
 	add(oth, []string{"RENAME", "o", "k"}, []string{"RENAME", "k", "o"}, []string{"RENAMENX", "o", "k"}, []string{"RENAMENX", "k", "new"}, []string{"COPY", "o", "k"}, []string{"COPY", "o", "k", "REPLACE"},
 		[]string{"COPY", "k", "o", "REPLACE"}, []string{"BITOP", "XOR", "k", "o", "o"}, []string{"BITOP", "OR", "o", "k", "k"}, []string{"DEL", "o", "k"}, []string{"DEL", "o"}, []string{"MSETNX", "new", "1", "k", "2"},
-		[]string{"FLUSHDB"}, []string{"FLUSHALL"}, []string{"SELECT", "1"})
+		[]string{"FLUSHDB"}, []string{"FLUSHALL"}, []string{"SELECT", "1"}, []string{"LCS", "k", "o"}, []string{"LCS", "k", "o", "IDX"}, []string{"SORT", "k", "STORE", "k"})
 	add(none, []string{"SET", "k", "v"}, []string{"SETNX", "k", "v"}, []string{"SET", "k", "v", "XX"}, []string{"APPEND", "k", ""}, []string{"APPEND", "k", "x"}, []string{"SETRANGE", "k", "0", ""}, []string{"SETBIT", "k", "0", "0"},
 		[]string{"INCR", "k"}, []string{"INCRBY", "k", "0"}, []string{"LPUSH", "k", "x"}, []string{"LPUSHX", "k", "x"}, []string{"HSET", "k", "f", "v"}, []string{"HINCRBY", "k", "f", "0"}, []string{"HDEL", "k", "f"},
 		[]string{"SADD", "k", "m"}, []string{"SREM", "k", "m"}, []string{"DEL", "k"}, []string{"RENAME", "o", "k"}, []string{"COPY", "o", "k"}, []string{"SUNIONSTORE", "k", "nokey"}, []string{"BITOP", "NOT", "k", "nokey"},
 		[]string{"EXPIRE", "k", "100"}, []string{"PERSIST", "k"}, []string{"GETDEL", "k"}, []string{"GETSET", "k", "v"}, []string{"LMOVE", "nokey", "k", "LEFT", "LEFT"}, []string{"SMOVE", "nokey", "k", "m"},
-		[]string{"FLUSHDB"}, []string{"BITFIELD", "k", "SET", "u8", "0", "0"}, []string{"BITFIELD", "k", "INCRBY", "u8", "0", "0"})
+		[]string{"FLUSHDB"}, []string{"BITFIELD", "k", "SET", "u8", "0", "0"}, []string{"BITFIELD", "k", "INCRBY", "u8", "0", "0"},
+		[]string{"SORT", "nokey", "STORE", "k"}, []string{"SORT", "k", "STORE", "k"}, []string{"SORT", "o", "STORE", "k"})
 	return t
 }
 
@@ -482,6 +487,21 @@ func init() {
 				o := g.dataOp(1)
 				if g.chance(0.25) {
 					o = mkOp(1, catalog[g.pick("ttl", "persist", "expire", "pexpire", "getex", "set", "append", "rename", "copy", "keys", "randomkey", "scan", "del", "type")](g)...)
+				}
+				if g.chance(0.12) {
+					// SORT reads its source, its weights and its GET targets through the same expiry
+					// filter, and a stored result has no deadline; LCS reads two strings
+					a, b := g.key(), g.key()
+					switch g.r.Intn(4) {
+					case 0:
+						o = mkOp(1, "SORT", a, "ALPHA", "STORE", b)
+					case 1:
+						o = mkOp(1, "SORT", a, "BY", "*", "ALPHA", "GET", "*", "GET", "#")
+					case 2:
+						o = mkOp(1, "SORT", a, "ALPHA", "LIMIT", "0", "2")
+					default:
+						o = mkOp(1, "LCS", a, b, g.pick("LEN", "IDX"))
+					}
 				}
 				if first && short > 0 {
 					o.SleepMs = 80
